@@ -32,17 +32,31 @@ def goal_variants(X, Y, fresh):
     return out
 
 
-def rows(n):
-    return [clause(C("g", I(i), A("abc"[i - 1]))) for i in range(1, n + 1)]
+def rows(n, style):
+    """the goal predicate g/2 with n solutions: as facts, as rules ending in a cut-free body, or through a
+    clause that ends in a cut (which yields True in the generated code)"""
+    facts = [clause(C("g", I(i), A("abc"[i - 1]))) for i in range(1, n + 1)]
+    if style == "facts":
+        return {"g/2": facts}
+    base = {"g0/2": [clause(C("g0", c["h"]["a"][0], c["h"]["a"][1])) for c in facts]}
+    if style == "rule":
+        base["g/2"] = [clause(C("g", V(0), V(1)), call(C("g0", V(0), V(1))))]
+    elif style == "cutlast":      # the goal's own clause ends in a cut (its answer is signalled with `yield True`)
+        base["g/2"] = [clause(C("g", V(0), V(1)), and_(call(C("g0", V(0), V(1))), {"b": "cut"})), clause(C("g", I(9), A("z")))]
+    else:  # the first solution comes from a clause ending in a cut, the others from a second predicate
+        base["g/2"] = [clause(C("g", V(0), V(1)), and_(call(C("g1", V(0), V(1))), TRUE)), ]
+        base["g1/2"] = [clause(C("g1", I(1), A("a")), and_(call(C("g0", I(1), A("a"))), {"b": "cut"}))] + \
+                       [clause(C("g1", V(0), V(1)), and_(call(C("g0", V(0), V(1))), call(C("\\=", V(0), I(1)))))]
+    return base
 
 
 def scenarios():
     scns = []
     X, Y, L = V(0), V(1), V(2)
-    for n in range(0, 4):
+    for n, style in [(0, "facts"), (1, "facts"), (2, "facts"), (3, "facts"), (2, "rule"), (1, "cut"), (3, "cut"), (2, "cutlast"), (0, "cutlast")]:
         script = {}
-        if n:
-            script["g/2"] = rows(n)
+        if n or style == "cutlast":
+            script.update(rows(n, style))
         script["h/0"] = [clause(A("h"))] * max(n, 0)
         queries = []
         k = 0
@@ -61,7 +75,7 @@ def scenarios():
                 inner = ct["a"][0]
                 k += 1; add("t%d/2" % k, C("t%d" % k, X, Y), conj(*(pre + [call(C("once", inner))]))); queries.append((C("t%d" % k, V(0), V(1)), 2))
                 k += 1; add("t%d/2" % k, C("t%d" % k, X, Y), conj(*(pre + [call(C("once", inner)), call(C("\\=", X, I(1)))]))); queries.append((C("t%d" % k, V(0), V(1)), 2))
-                for tmpl in (X, C("p", Y, X), A("k"), lst([X])):
+                for tmpl in (X, C("p", Y, X), A("k"), lst([X]), C("w", A("k"), C("v", X)), lst([A("a"), X]), C("r", I(1), lst([A("b")], Y))):
                     for bag in (L, lst([V(5)], V(6)), lst([I(1), I(2)]), NIL):
                         k += 1
                         add("t%d/3" % k, C("t%d" % k, X, Y, L), conj(*(pre + [call(C("findall", tmpl, inner, bag)), call(C("=", L, bag))])))
@@ -88,9 +102,15 @@ def scenarios():
         steps = [[{"op": "load", "e": 1, "script": "P", "ow": True}]]
         for i, (g, qnv) in enumerate(queries):
             steps.append([{"op": "solve", "e": 1, "r": i + 1, "goal": g, "qnv": qnv, "k": 0}])
-        # one query per scenario keeps a failure from hiding the others
+        # one query per scenario keeps a failure from hiding the others; the scenario carries only
+        # the clause its query needs (plus the goal predicates)
+        base = {k: v for k, v in script.items() if not (k[0] == "t" and k[1].isdigit())}
         for i, (g, qnv) in enumerate(queries):
-            scns.append({"scripts": {"P": script}, "steps": [steps[0], [{"op": "solve", "e": 1, "r": 1, "goal": g, "qnv": qnv, "k": 0}]]})
+            sc = dict(base)
+            key = "%s/%d" % (g["n"], len(g.get("a", [])))
+            if key in script:
+                sc[key] = script[key]
+            scns.append({"scripts": {"P": sc}, "steps": [steps[0], [{"op": "solve", "e": 1, "r": 1, "goal": g, "qnv": qnv, "k": 0}]]})
     return scns
 
 
